@@ -18,8 +18,8 @@ RULE = ('family = one generated pipeline with a prefetch / parallel-map stage an
 PROBES = ['error_after_deliveries', 'error_at_first_position', 'error_at_last_position',
           'caught_and_omitted', 'foreign_exception_with_catch_enabled']
 BUDGET = {
-    'quick': {'families': 1200, 'wall_cap': 240, 'shrink_s': 15},
-    'thorough': {'families': 30000, 'wall_cap': 3000, 'shrink_s': 40},
+    'quick': {'families': 4800, 'wall_cap': 420, 'shrink_s': 15},
+    'thorough': {'families': 40000, 'wall_cap': 5400, 'shrink_s': 40},
 }
 
 KINDS = ['value', 'filter', 'filter_sub', 'key', 'base']
